@@ -6,6 +6,8 @@ import (
 	"math/big"
 	"time"
 
+	"github.com/bnb-chain/tss-lib/v2/common"
+	"github.com/bnb-chain/tss-lib/v2/crypto"
 	"github.com/bnb-chain/tss-lib/v2/crypto/paillier"
 	"github.com/bnb-chain/tss-lib/v2/tss"
 
@@ -285,6 +287,79 @@ func genC13(r *vc.Run) {
 						r.Violate("mta-altered-ciphertext-accepted", "Alice accepts Bob's proof for an altered ciphertext", vc.Line(in.op, args))
 					}
 				}
+			}
+		}
+	}
+	c13DishonestBob(r, g)
+}
+
+// c13DishonestBob: a Bob written here from Fig. 10 of the GG18 spec (math/big only) who multiplies by b but claims the public point X != b*G.
+// He may pick his mask alpha freely (also 0 modulo q, where s1*G is the point at infinity) and any point U; Alice must reject every such response.
+func c13DishonestBob(r *vc.Run, g rng) {
+	keys, _ := fixtures()
+	ec := tss.S256()
+	q := ec.Params().N
+	q3 := q3of(q)
+	q5 := mul(q3, mul(q, q))
+	q7 := mul(mul(q3, q3), q)
+	session := []byte("mta-dishonest")
+	kA := keys[0]
+	N := kA.PaillierSK.N
+	N2 := mul(N, N)
+	nt, h1, h2 := kA.NTildei, kA.H1i, kA.H2i
+	expm := func(b, e, m *big.Int) *big.Int { return new(big.Int).Exp(b, e, m) }
+	mulm := func(a, b, m *big.Int) *big.Int { return new(big.Int).Mod(new(big.Int).Mul(a, b), m) }
+	gamma := add(N, 1)
+	enc := func(m, x *big.Int) *big.Int { return mulm(expm(gamma, m, N2), expm(x, N, N2), N2) }
+	G := crypto.ScalarBaseMult(ec, big.NewInt(1))
+	for _, bv := range []*big.Int{big.NewInt(0), big.NewInt(0), big.NewInt(1), g.below(q)} {
+		for ai, alpha := range []*big.Int{mul(q, add(g.below(mul(q, q)), 1)), new(big.Int).Set(q), big.NewInt(0), g.below(q3)} {
+			a := g.below(q)
+			c1 := enc(a, g.unit(N))
+			y, rB := g.below(q5), g.unit(N)
+			c2 := mulm(expm(c1, bv, N2), enc(y, rB), N2)
+			claimed := crypto.ScalarBaseMult(ec, add(bv, int64(5+ai))) // never b*G
+			U := G
+			if ai%2 == 1 {
+				U = crypto.ScalarBaseMult(ec, add(g.below(add(q, -1)), 1))
+			}
+			control := bv.Sign() != 0 && ai == 3 && bv.BitLen() > 1 // the same Bob telling the truth: must be accepted (validates this forger)
+			if control {
+				claimed = crypto.ScalarBaseMult(ec, bv)
+				U = crypto.ScalarBaseMult(ec, alpha)
+			}
+			rho, sigma := g.below(mul(q, nt)), g.below(mul(q, nt))
+			tau, rhoP := g.below(mul(q3, nt)), g.below(mul(q3, nt))
+			beta, gam := g.unit(N), g.below(q7)
+			z := mulm(expm(h1, bv, nt), expm(h2, rho, nt), nt)
+			zP := mulm(expm(h1, alpha, nt), expm(h2, rhoP, nt), nt)
+			t := mulm(expm(h1, y, nt), expm(h2, sigma, nt), nt)
+			v := mulm(mulm(expm(c1, alpha, N2), expm(gamma, gam, N2), N2), expm(beta, N, N2), N2)
+			w := mulm(expm(h1, gam, nt), expm(h2, tau, nt), nt)
+			e := common.RejectionSample(q, common.SHA512_256i_TAGGED(session, N, gamma, claimed.X(), claimed.Y(), c1, c2, U.X(), U.Y(), z, zP, t, v, w))
+			s := mulm(expm(rB, e, N), beta, N)
+			s1 := add(mul(e, bv), 0)
+			s1.Add(s1, alpha)
+			s2 := new(big.Int).Add(mul(e, rho), rhoP)
+			t1 := new(big.Int).Add(mul(e, y), gam)
+			t2 := new(big.Int).Add(mul(e, sigma), tau)
+			args := []val.V{val.A("secp256k1"), val.B(session), val.I(N), val.I(nt), val.I(h1), val.I(h2), val.I(c1), val.I(c2),
+				val.Ints([]*big.Int{z, zP, t, v, w, s, s1, s2, t1, t2}), pointV(U), pointV(claimed)}
+			cls := "alpha-random"
+			if new(big.Int).Mod(s1, q).Sign() == 0 {
+				cls = "s1=0-mod-q"
+			}
+			if control {
+				if o := r.Case("dishonest-bob/control-honest", true, "bobwc_verify", args...); o.String() != okb(true).String() {
+					r.Note("the harness's own Bob is rejected when he tells the truth: %s", o.String())
+				} else {
+					r.Dist["dishonest-bob/control-accepted"]++
+				}
+				continue
+			}
+			o := r.Case("dishonest-bob/"+cls, true, "bobwc_verify", args...)
+			if o.String() == okb(true).String() {
+				r.Violate("mta-wrong-point-accepted", "Alice's verifier accepts a response whose public point is not b*G ("+cls+")", vc.Line("bobwc_verify", args))
 			}
 		}
 	}
